@@ -34,12 +34,14 @@ func checkC15(r *Run) {
 	}
 	r.Stats["packages"] = len(p.Repo)
 	r.Rule("C15.R1.layout", "NewKey, Key.Leaseholder, Key.LocalKey and the counter limit agree on a 20-bit local key under a 12-bit leaseholder", 4)
+	r.Rule("C15.R5.names", "validateChannelNames returns nil only after the pass that refuses a name repeated inside the request, whatever the retrieve/overwrite option; deleteOverwritten queues the engine key of every channel whose metadata row it queues for deletion (paired appends in one iteration)", 2)
 	r.Rule("C15.R2.provenance", "non-zero local keys come only from the persisted counter (value returned by Add, plus the count of keys assigned so far in the batch); counter.add alone advances the counter and checks the limit first; rows are created only after the assignment succeeded", 6)
 	r.Rule("C15.R3.union", "every cesium function that indexes dbs.unary with a caller-supplied key also indexes dbs.virtual, except the tabled index-resolution helpers", 8)
 	r.Rule("C15.R4.order", "engine mutation last in deleteGateway/renameGateway; createGateway writes engine and table from one slice; no remote step after the gateway step in create/delete/rename; BatchFactory.Batch is an exhaustive three-way split on Lease()", 7)
 
 	checkKeyLayout(r, p)
 	checkKeyProvenance(r, p)
+	checkNameAndOverwrite(r, p)
 	checkEngineUnion(r, p)
 	checkGatewayOrdering(r, p)
 }
@@ -521,4 +523,117 @@ func checkGatewayOrdering(r *Run, p *Prog) {
 		}
 	}
 	r.Ob("C15.R4.order", "BatchFactory.Batch places every entry in exactly one of Free, Gateway, Peers", p.Position(bf.Pos()), okSplit, "an entry that falls through is never created/deleted anywhere")
+}
+
+// checkNameAndOverwrite decides C15.R5.
+func checkNameAndOverwrite(r *Run, p *Prog) {
+	// (a) duplicate names inside one request
+	if fn := p.Func(chanPkg, "Service", "validateChannelNames"); fn == nil {
+		r.Undecide("C15.R5: Service.validateChannelNames not found")
+	} else {
+		c := p.CFG(fn)
+		var dup *ast.RangeStmt
+		inspectNoLit(fn.Body, func(x ast.Node) bool {
+			rng, ok := x.(*ast.RangeStmt)
+			if !ok || dup != nil {
+				return true
+			}
+			hasContains, hasAdd := false, false
+			inspectNoLit(rng.Body, func(y ast.Node) bool {
+				if call, ok := y.(*ast.CallExpr); ok {
+					if f := CalleeFunc(fn, call); f != nil {
+						switch f.Name() {
+						case "Contains":
+							hasContains = true
+						case "Add":
+							hasAdd = true
+						}
+					}
+				}
+				return true
+			})
+			if hasContains && hasAdd {
+				dup = rng
+			}
+			return true
+		})
+		if dup == nil {
+			r.Ob("C15.R5.names", "validateChannelNames refuses a name repeated in the request", p.Position(fn.Pos()), false, "no loop that records the names seen and refuses a repeated one")
+		} else {
+			isDup := func(n ast.Node) bool {
+				e, ok := n.(ast.Expr)
+				return ok && e == dup.X
+			}
+			q, vis := c.ReachAvoiding([]Point{c.Entry()}, nil, isDup)
+			var path []string
+			for _, ex := range c.Exits() {
+				if ex.Return != nil && len(ex.Return.Results) == 1 && isNilIdent(fn, ex.Return.Results[0]) && vis[ex.P] {
+					path = q.PathTo(ex.P)
+				}
+			}
+			r.ObPath("C15.R5.names", "validateChannelNames accepts a batch only after the repeated-name pass", p.Position(fn.Pos()), path == nil,
+				"a nil return is reachable before the pass over the request's own names: a batch that repeats a name creates two channels with that name", path)
+		}
+	}
+	// (b) paired appends in deleteOverwritten
+	fn := p.Func(chanPkg, "Service", "deleteOverwritten")
+	if fn == nil {
+		r.Undecide("C15.R5: Service.deleteOverwritten not found")
+		return
+	}
+	c := p.CFG(fn)
+	appendsTo := func(n ast.Node, name string) bool {
+		as, ok := n.(*ast.AssignStmt)
+		if !ok || len(as.Lhs) != 1 || len(as.Rhs) != 1 {
+			return false
+		}
+		id, ok := ast.Unparen(as.Lhs[0]).(*ast.Ident)
+		if !ok || id.Name != name {
+			return false
+		}
+		call, ok := ast.Unparen(as.Rhs[0]).(*ast.CallExpr)
+		if !ok {
+			return false
+		}
+		bi, ok := Callee(fn, call).(*types.Builtin)
+		return ok && bi.Name() == "append"
+	}
+	// the two queues: the one handed to the table delete and the one handed to the engine
+	var metaQ, engQ string
+	inspectNoLit(fn.Body, func(x ast.Node) bool {
+		call, ok := x.(*ast.CallExpr)
+		if !ok {
+			return true
+		}
+		f := CalleeFunc(fn, call)
+		if f == nil {
+			return true
+		}
+		if f.Name() == "DeleteChannels" && len(call.Args) == 1 {
+			if id, ok := ast.Unparen(call.Args[0]).(*ast.Ident); ok {
+				engQ = id.Name
+			}
+		}
+		if f.Name() == "MatchKeys" && len(call.Args) == 1 {
+			if id, ok := ast.Unparen(call.Args[0]).(*ast.Ident); ok {
+				metaQ = id.Name
+			}
+		}
+		return true
+	})
+	if metaQ == "" || engQ == "" {
+		r.Undecide("C15.R5: the metadata and engine delete queues of deleteOverwritten were not identified")
+		return
+	}
+	pts := c.NodesWhere(func(n ast.Node) bool { return appendsTo(n, metaQ) })
+	if len(pts) == 0 {
+		r.Undecide("C15.R5: deleteOverwritten never appends to %s", metaQ)
+		return
+	}
+	for i, pt := range pts {
+		loop := enclosingLoop(fn, pt.B.Nodes[pt.I])
+		pth := c.leavesWithout(pt, loop, nil, func(n ast.Node) bool { return appendsTo(n, engQ) })
+		r.ObPath("C15.R5.names", fmt.Sprintf("deleteOverwritten: append #%d to %s is paired with an append to %s", i+1, metaQ, engQ), posOf(p, pt.B.Nodes[pt.I]), pth == nil,
+			"a channel's metadata row is deleted while its engine key is not queued: the channel stays in the leaseholder's engine (still retrievable and writable there)", pth)
+	}
 }
